@@ -325,6 +325,26 @@ def connection_overrides() -> List[str]:
     return out
 
 
+BOT_METHODS = [
+    ("simulator/system/applications/red_applications/dos_bot.py", "DoSBot",
+     ["_application_loop", "_perform_port_scan", "_perform_dos", "run", "apply_timestep"]),
+    ("simulator/system/applications/red_applications/data_manipulation_bot.py", "DataManipulationBot",
+     ["_application_loop", "_logon", "_perform_port_scan", "_perform_data_manipulation", "_establish_db_connection", "attack", "run",
+      "apply_timestep"]),
+    ("simulator/system/applications/red_applications/ransomware_script.py", "RansomwareScript",
+     ["_application_loop", "_perform_ransomware_encrypt", "_establish_db_connection", "attack", "run"]),
+]
+
+
+def int_enum(rel: str, name: str) -> List[Tuple[str, int]]:
+    cls = class_def(parse(rel), name)
+    out = [(st.targets[0].id, st.value.value) for st in cls.body
+           if isinstance(st, ast.Assign) and isinstance(st.value, ast.Constant) and isinstance(st.value.value, int)]
+    if not out:
+        raise Unrecognised(f"enum {name} has no int members")
+    return out
+
+
 def lean_str(s: str) -> str:
     return '"' + s.replace("\\", "\\\\").replace('"', '\\"') + '"'
 
@@ -347,6 +367,16 @@ def emit() -> str:
         for m in meths:
             rows.append(f"({lean_str(cls + '.' + m)}, [" + ", ".join(lean_str(x) for x in norm_stmts(find_method(c, m))) + "])")
     L.append("def methodBodies : List (String × List String) := [\n  " + ",\n  ".join(rows) + "]")
+    L.append("")
+    L.append("/-- normalised bodies of the red applications' attack loops -/")
+    rows = []
+    for rel, cls, meths in BOT_METHODS:
+        c = class_def(parse(rel), cls)
+        for m in meths:
+            rows.append(f"({lean_str(cls + '.' + m)}, [" + ", ".join(lean_str(x) for x in norm_stmts(find_method(c, m))) + "])")
+    L.append("def botBodies : List (String × List String) := [\n  " + ",\n  ".join(rows) + "]")
+    for nm, rel, cls in (("dosStages", BOT_METHODS[0][0], "DoSAttackStage"), ("dmStages", BOT_METHODS[1][0], "DataManipulationAttackStage")):
+        L.append(f"def {nm} : List (String × Nat) := [" + ", ".join(f'("{k}", {v})' for k, v in int_enum(rel, cls)) + "]")
     L.append("")
     ports = port_lookup()
     # HTTP status codes the web model uses
